@@ -176,8 +176,9 @@ class kFlowDecompCycles(walkmodel.AbstractWalkModelDiGraph):
         # The flow value of an ignored edge bounds nothing: its flow constraint is not part of the model.
         # A walk crosses an ignored edge at most once more than it crosses non-ignored edges, and (the weights being at
         # least 1) it crosses those at most as often as the sum of their flow values.
+        # (summed as floats: a sum of fixed-width numpy integers wraps around, np.uint8 200 + 200 = 144)
         ignored_edge_bound = self.G.number_of_edges() + math.ceil(sum(
-            data[self.flow_attr] for u, v, data in self.G.edges(data=True)
+            float(data[self.flow_attr]) for u, v, data in self.G.edges(data=True)
             if self.flow_attr in data and (u, v) not in self.edges_to_ignore
         ))
         self.edge_upper_bounds_dict = {
